@@ -1,5 +1,5 @@
 SPECIFICATION Spec
-INVARIANTS RoundTrip EmitCases
+INVARIANTS RoundTrip OldReader EmitCases
 CHECK_DEADLOCK FALSE
 CONSTANT Depths = {64, 65, 300}
 CONSTANT Counts = {1024, 1025}
